@@ -467,6 +467,16 @@ def subscript(it, base, idx, node, for_store=False):
             raise RaiseEx("KeyError", it.site(node), repr(k))
         if getattr(d, "elem", None) is not None:
             return d.elem
+        if not ok and d.items and all(isinstance(x, VTens) for x in d.items.values()):
+            vals = list(d.items.values())
+            shapes = {x.shape for x in vals}
+            terms = [x.term for x in vals]
+            kt = getattr(idx, "term", None) or T.sym("key:%s" % getattr(idx, "tag", "?"))
+            t = T.app("select", kt, tuple(terms)) if all(x is not None for x in terms) else None
+            r = it.fresh(t, shapes.pop() if len(shapes) == 1 else None, vals[0].kind, node)
+            for x in vals:
+                r.obj.may_alias.add(x.obj)
+            return r
         u = VUnknown("%s[%s]" % (d.origin, k if ok else "?"), "unknown", d.origin)
         return u
     if isinstance(base, VConst) and isinstance(base.value, str):
